@@ -617,7 +617,9 @@ func (f *Font) NormalizeVariations(coords []float32) []VarCoord {
 			previous, pair := l[j-1], l[j]
 			if normalized[i] < pair.FromCoordinate {
 
-				normalized[i] = previous.ToCoordinate + VarCoord(math.Round(float64(normalized[i]-previous.FromCoordinate)*
+				// round the mapped value, not the increment : rounding halves away from zero
+				// then maps opposite coordinates of a symmetric map to opposite values
+				normalized[i] = VarCoord(math.Round(float64(previous.ToCoordinate) + float64(normalized[i]-previous.FromCoordinate)*
 					float64(pair.ToCoordinate-previous.ToCoordinate)/float64(pair.FromCoordinate-previous.FromCoordinate)))
 				break
 			}
